@@ -154,8 +154,21 @@ func main() {
 						late = false
 					}
 					buf := make([]byte, int(hx.Int(op["buf"])))
+					// room: the receiving process can take only that many more descriptors at the moment of the receive
+					var tt *tight
+					if rv, ok := op["room"]; ok && rv != nil {
+						where, _ := op["room_where"].(string)
+						var terr error
+						if tt, terr = tighten(int(hx.Int(rv)), where); terr != nil {
+							return map[string]any{"harness_err": "tighten: " + terr.Error()}
+						}
+						o["room_seen"] = freeSlots(tt.Room + 2)
+						o["limit"] = tt.Limit
+					}
 					n, m, err := b.RecvMsg(buf)
+					tt.release()
 					o["err"] = errs(err)
+					o["nfds"] = len(m.Fds)
 					o["n"] = n
 					want := pattern(n, int(hx.Int(op["salt"])))
 					ok := true
@@ -297,6 +310,16 @@ func main() {
 					var rerr error
 					seq := -1
 					okPayload := false
+					// room: as on the raw socket, the receiver can take only that many more descriptors
+					var tt *tight
+					if rv, ok := m["room"]; ok && rv != nil {
+						where, _ := m["room_where"].(string)
+						var terr error
+						if tt, terr = tighten(int(hx.Int(rv)), where); terr != nil {
+							return map[string]any{"harness_err": "tighten: " + terr.Error()}
+						}
+						o["room_seen"] = freeSlots(tt.Room + 2)
+					}
 					returned := hx.Guard(5*time.Second, func() {
 						switch m["type"].(string) {
 						case "A":
@@ -313,6 +336,7 @@ func main() {
 							seq, okPayload = v.Seq, len(v.Names) == 1 && v.Names[0] == string(pattern(size, i))
 						}
 					})
+					tt.release()
 					if !returned {
 						// the message was accepted by the sender and never arrives: nothing more can be learnt from this connection
 						o["recv_hang"] = true
@@ -322,6 +346,7 @@ func main() {
 						return map[string]any{"obs": obs, "fd_delta": 0, "abandoned": true}
 					}
 					o["recv_err"] = errs(rerr)
+					o["nfds"] = len(rm.Fds)
 					o["seq"] = seq
 					o["payload_ok"] = okPayload
 					same := len(rm.Fds) == len(ids)
